@@ -67,6 +67,9 @@ type src struct {
 	slow        bool
 }
 
+// TypeOfURL returns the last component of a type URL.
+func TypeOfURL(url string) string { return typeOf(url) }
+
 func typeOf(url string) string {
 	if i := strings.LastIndex(url, "."); i >= 0 {
 		return url[i+1:]
